@@ -190,13 +190,25 @@ def dispatchL3 (c : Cfg) (st : LinkSt) (p : Pkt) (token : Option Bytes) : Option
     | none => some (st', .dataHash)
   else some (st, .nothing)
 
+/-- the buffer is exactly one TLV (type, length, `length` value bytes, nothing behind it) -/
+def singleTlv (b : Bytes) : Bool :=
+  match decTL b with
+  | some (_, r1) =>
+    match decTL r1 with
+    | some (l, r2) => r2.length == l
+    | none => false
+  | none => false
+
 /-- `handleIncomingFrame`: `none` = run-time panic -/
 def handleFrame (c : Cfg) (st : LinkSt) (frame : Bytes) : Option (LinkSt × Deliver) :=
   match c.dec frame with
   | none => some (st, .nothing)                              -- decode error: return
   | some l2 =>
     match l2.lp with
-    | none => dispatchL3 c st l2 none                         -- bare Interest / Data
+    | none =>                                                 -- bare Interest / Data
+      -- (F-09c repaired) a frame carries exactly ONE network-layer packet: what follows the first TLV would be
+      -- forwarded along with it unseen
+      if singleTlv frame then dispatchL3 c st l2 none else some (st, .nothing)
     | some lp =>
       match lp.fragment with
       | none => some (st, .nothing)                           -- IDLE
@@ -205,7 +217,9 @@ def handleFrame (c : Cfg) (st : LinkSt) (frame : Bytes) : Option (LinkSt × Deli
           match c.dec wire with
           | none => some (st, .nothing)
           | some l3 =>
-            dispatchL3 c st l3 (match lp.token with | some t => if t.length > 0 then some t else none | none => none)
+            if singleTlv wire then
+              dispatchL3 c st l3 (match lp.token with | some t => if t.length > 0 then some t else none | none => none)
+            else some (st, .nothing)
         if c.reassembly ∧ lp.seq.isSome then
           let idx := lp.idx.getD 0
           let cnt := lp.cnt.getD 1
